@@ -7,7 +7,7 @@ using vrf::LinOp;
 enum Op { GET, SET, SETMOVE, FULFILL, FINISH, ISREC, ISCOMP, FUTVAL, NOPS };
 static const char* const OPN[] = {"getFuture", "setDelayedValue(copy)", "setDelayedValue(move)", "fulfillAllPromises", "finishedWithValue", "isRecognized",
                                   "isCompleted", "future.get()"};
-constexpr int NKEYS = 4;  // 0,1: integer keys 11, 12 ; 2,3: string keys "alpha", "beta"
+constexpr int NKEYS = 4;  // 0,1: integer keys 11, 12 ; 2,3: two string keys (family chosen by the round)
 static std::string val_str(int64_t id) { return id == 0 ? std::string() : "delayed-value-with-heap-storage-" + std::to_string(id); }
 static int64_t val_id(const std::string& s) { return s.empty() ? 0 : atol(s.c_str() + 32); }
 
@@ -119,7 +119,16 @@ static void run_thread(DO& d, int tid, const std::vector<POp>& script, std::vect
                        std::atomic<uint64_t>& consumer_got)
 {
     static const int ikeys[] = {11, 12};
-    static const char* skeys[] = {"alpha", "beta"};
+    // string keys come in families: plain names, a name with an embedded NUL next to its own prefix, the empty name next to
+    // a one-NUL name, and names too long for the small-string buffer that differ only in the last character
+    auto skey = [](int i) -> std::string {
+        switch (vrf::res.cur_round % 4) {
+            case 1: return i == 0 ? std::string("ab") : std::string("ab\0cd", 5);
+            case 2: return i == 0 ? std::string() : std::string(1, '\0');
+            case 3: return std::string(40, 'k') + (i == 0 ? "0" : "1");
+            default: return i == 0 ? std::string("alpha") : std::string("beta");
+        }
+    };
     for (const POp& p : script) {
         LinOp o;
         o.thread = tid;
@@ -131,7 +140,7 @@ static void run_thread(DO& d, int tid, const std::vector<POp>& script, std::vect
         try {
             switch (p.op) {
                 case GET:
-                    futs[p.key] = isint ? d.getFuture(ikeys[p.key]) : d.getFuture(std::string(skeys[p.key - 2]));
+                    futs[p.key] = isint ? d.getFuture(ikeys[p.key]) : d.getFuture(skey(p.key - 2));
                     have_fut[p.key].store(1, std::memory_order_release);
                     break;
                 case SET: {
@@ -143,7 +152,7 @@ static void run_thread(DO& d, int tid, const std::vector<POp>& script, std::vect
                     if (inject) vrf::fault_arm(1u << 1, 1, (p.val % 2) == 1);
                     try {
                         if (isint) d.setDelayedValue(ikeys[p.key], v);
-                        else d.setDelayedValue(std::string(skeys[p.key - 2]), v);
+                        else d.setDelayedValue(skey(p.key - 2), v);
                     }
                     catch (const vrf::Injected&) {
                         o.r2 = 1;  // the copy threw: the call must have had no effect (the key stays pending)
@@ -154,7 +163,7 @@ static void run_thread(DO& d, int tid, const std::vector<POp>& script, std::vect
                 }
                 case SETMOVE:
                     if (isint) d.setDelayedValue(ikeys[p.key], VX(val_str(p.val)));
-                    else d.setDelayedValue(std::string(skeys[p.key - 2]), VX(val_str(p.val)));
+                    else d.setDelayedValue(skey(p.key - 2), VX(val_str(p.val)));
                     break;
                 case FULFILL: {
                     VX v(val_str(p.val));
@@ -176,10 +185,10 @@ static void run_thread(DO& d, int tid, const std::vector<POp>& script, std::vect
                 }
                 case FINISH:
                     if (isint) d.finishedWithValue(ikeys[p.key]);
-                    else d.finishedWithValue(std::string(skeys[p.key - 2]));
+                    else d.finishedWithValue(skey(p.key - 2));
                     break;
-                case ISREC: o.r = isint ? d.isRecognized(ikeys[p.key]) : d.isRecognized(std::string(skeys[p.key - 2])); break;
-                case ISCOMP: o.r = isint ? d.isCompleted(ikeys[p.key]) : d.isCompleted(std::string(skeys[p.key - 2])); break;
+                case ISREC: o.r = isint ? d.isRecognized(ikeys[p.key]) : d.isRecognized(skey(p.key - 2)); break;
+                case ISCOMP: o.r = isint ? d.isCompleted(ikeys[p.key]) : d.isCompleted(skey(p.key - 2)); break;
                 case FUTVAL: {
                     // consumer: wait (bounded) on a future somebody else requested; the value is judged at the end of the round
                     if (have_fut[p.key].load(std::memory_order_acquire)) {
